@@ -155,7 +155,13 @@ def check_bounds(rep, crate, cfg):
             if nm in ('panic', 'begin_panic', 'panic_fmt', 'unreachable', 'panic_explicit') or 'panicking' in (t['callee'].get('def') or ''):
                 if t.get('mac') and ('unreachable' in t['mac'] or 'panic' in t['mac'] or 'todo' in t['mac'] or 'assert' in t['mac']):
                     n_sites += 1
-                    rep.bad('R13.1', '%s|explicit-panic|%s' % (fk, cfg), C.where(body, blk), 'explicit panic (%s) in the parser' % t['mac'])
+                    if fk in panic_free_scanner_bodies(crate):
+                        # an assertion inside an interpreted scanner / lexical helper: every feasible path through it was evaluated (R13.7 / R13.13),
+                        # a reachable failure would have been reported there as a `panic` outcome
+                        rep.ok('R13.1', '%s|explicit-panic|%s' % (fk, cfg), C.where(body, blk),
+                               'assertion (%s) evaluated on every feasible path by the scanner interpretation: it cannot fail' % t['mac'])
+                    else:
+                        rep.bad('R13.1', '%s|explicit-panic|%s' % (fk, cfg), C.where(body, blk), 'explicit panic (%s) in the parser' % t['mac'])
     rep.floor('R13.1', 25, 'index / range / unwrap sites in idl::parse')
 
 
